@@ -12,8 +12,10 @@
          MVAL tag nz {re im} / MVALN tag k {n re im}          tag = G | S0 | S1 | S2 | S3
          MBOUND nz {dropped merge negl} / MBOUNDN k {n dropped merge negl}     from the model's ghost data
    (B) the dump of harness/h_ed.cpp (N/HPOLY/NBLOCKS/BLOCK/VEC/EIG/BETA/W ... ENDDUMP) followed by
-         gfbound <i> <j> <nz> {re im} [n <k> {numbers}]   ->  GFBOUND i j nz {dropped merge} / GFBOUNDN k {n dropped merge}
-         suscbound <a> <b> <c> <d> <k> {numbers}          ->  SUSCBOUNDN k {n dropped merge resonance}
+         gfbound <i> <j> <nz> {re im} [n <k> {numbers}]   ->  GFBOUND i j nz {dropped merge abssum} / GFBOUNDN k {n dropped merge abssum}
+         suscbound <a> <b> <c> <d> <k> {numbers}          ->  SUSCBOUNDN k {n dropped merge resonance abssum}
+         susctaubound <a> <b> <c> <d>                      ->  SUSCTAUBOUND dropped merge      (uniform in tau)
+       (abssum = sum over all Lehmann terms of |R|/|z-P|: the scale of the rounding error)
        answered from PV.TruncSpec on the full Fock space. *)
 open C01_model
 
@@ -248,7 +250,8 @@ let gfbound (t : string array) =
   let (zs, ns) = parse_zs t 3 in
   let terms = c_gf_lehmann fexp !evals !wspec (opmat "c" i) (opmat "cdag" j) in
   let wd = c_with_delta fexp tolM tolC terms in
-  let b z = Printf.sprintf "%h %h" (re (c_dropped_bound fexp tolM terms z)) (re (c_merge_bound fexp wd z)) in
+  let b z = Printf.sprintf "%h %h %h" (re (c_dropped_bound fexp tolM terms z)) (re (c_merge_bound fexp wd z))
+      (re (c_dropped_bound fexp (c 1e300 0.) terms z)) in
   Printf.printf "GFBOUND %d %d %d%s\n" i j (List.length zs) (String.concat "" (List.map (fun z -> " " ^ b z) zs));
   if ns <> [] then
     Printf.printf "GFBOUNDN %d%s\n" (List.length ns) (String.concat "" (List.map (fun k -> Printf.sprintf " %d %s" k (b (matsubara_f k))) ns))
@@ -263,8 +266,15 @@ let suscbound (t : string array) =
   Printf.printf "SUSCBOUNDN %d%s\n" k
     (String.concat "" (List.map (fun nn ->
          let z = matsubara_b nn in
-         Printf.sprintf " %d %h %h %h" nn (re (c_dropped_bound fexp tolM terms z)) (re (c_merge_bound fexp wd z))
-           (re (c_resonance_bound fexp (c !beta 0.) tolR l z (nn = 0)))) ns))
+         Printf.sprintf " %d %h %h %h %h" nn (re (c_dropped_bound fexp tolM terms z)) (re (c_merge_bound fexp wd z))
+           (re (c_resonance_bound fexp (c !beta 0.) tolR l z (nn = 0))) (re (c_dropped_bound fexp (c 1e300 0.) terms z))) ns))
+
+let susctaubound (t : string array) =
+  let a = ios t.(1) and b = ios t.(2) and cc = ios t.(3) and d = ios t.(4) in
+  let l = c_susc_lehmann fexp !evals !wspec (quad a b) (quad cc d) in
+  let terms = c_susc_terms fexp tolR l in
+  let wd = c_with_delta fexp tolM tolC terms in
+  Printf.printf "SUSCTAUBOUND %h %h\n" (re (c_tau_dropped_bound fexp (c !beta 0.) tolM terms)) (re (c_tau_merge_bound fexp (c !beta 0.) wd))
 
 let handle (t : string array) =
   let a k = t.(k) in
@@ -308,6 +318,7 @@ let handle (t : string array) =
   | "ENDDUMP" -> assemble ()
   | "gfbound" -> gfbound t
   | "suscbound" -> suscbound t
+  | "susctaubound" -> susctaubound t
   | _ -> ()
 
 let () =
